@@ -2,7 +2,7 @@
    ONLY statements closed by `exact`, with Print Assumptions beneath each.
    Model: Model/Computed.v (mesa_signal.py as repaired by fixes/C17-1..4). *)
 From Coq Require Import ZArith List Bool PeanoNat Lia.
-From Mesa Require Import Model.Computed Proofs.ComputedProofs.
+From Mesa Require Import Generated.Tables Model.Computed Proofs.ComputedProofs Proofs.ComputedBridge.
 Import ListNotations.
 Open Scope Z_scope.
 
@@ -172,6 +172,59 @@ Theorem C17_cycle_through_cache_accepted : forall prog st k o nm v,
 Proof. exact cycle_through_cache_accepted. Qed.
 Print Assumptions C17_cycle_through_cache_accepted.
 
+(* ---------------------------------------------------------------- code-level T1
+   The methods of mesa_signal.py the model transcribes are TRANSLATED from the current source on every run
+   (harness/tables/computed_code.py -> Generated.Tables: control flow, conditions and statement order from the
+   source, leaves = a fixed dictionary statement -> model primitive); what cannot be translated (the
+   for/else/break nest over weak references with its test cut out, the evaluation try/finally,
+   Computable.__set__, BaseObservable.__set__) is checked verbatim. *)
+Theorem C17_source_skeleton : gen_signal_skeleton_ok = true.
+Proof. vm_compute. reflexivity. Qed.
+Print Assumptions C17_source_skeleton.
+
+(* the translated code IS the model: every function the theorems above are about equals the function
+   regenerated from the source *)
+Theorem C17_source_code_is_model :
+  (forall prog b st o nm v, set_obs prog b st o nm v = gen_obs_set prog b st o nm v) /\
+  (forall prog call cur st k, read_comp prog call cur st k = gen_comp_get prog call cur st k) /\
+  (forall prog st j s v, add_parent prog st j s v = gen_add_parent prog st j s v) /\
+  (forall prog st j, remove_parents prog st j = gen_remove_parents prog st j) /\
+  (forall v old, gen_cmp_changed v old = negb (v =? old)) /\
+  (forall prog f st c,
+     set_dirty prog (S f) st c =
+     if negb (c <? ncomp prog)%nat then st else if negb (alive st (cowner prog c)) then st
+     else gen_set_dirty (fun s => fold_left (set_dirty prog f) (subs s (SComp c)) s) st c) /\
+  (forall prog f st j,
+     callf prog (S f) st j =
+     gen_call prog (fun s => cmp_items prog (callf prog f) (flat (parents s j)) s) (evalf_of prog (callf prog f) j) st j) /\
+  (forall prog f st j, g_callf prog f st j = callf prog f st j) /\
+  (forall prog st k, g_read_top prog st k = read_top prog st k).
+Proof.
+  exact (conj obs_set_bridge (conj comp_get_bridge (conj add_parent_bridge (conj remove_parents_bridge
+        (conj cmp_changed_bridge (conj set_dirty_bridge (conj call_bridge (conj g_callf_eq g_read_top_eq)))))))).
+Qed.
+Print Assumptions C17_source_code_is_model.
+
+(* ... so the never-stale theorem holds of the machine assembled from the translated source code
+   (g_read_top = gen_comp_get over gen_call over gen_obs_get / gen_comp_get / gen_cmp_changed) *)
+Theorem C17_never_stale_of_source : forall (c : case) (pre : list op) (k : nat),
+  gen_signal_skeleton_ok = true ->
+  no_kill pre = true -> (k < length (c_comps c))%nat ->
+  let st := final (c_comps c) (map (@length Z) (c_init c)) (start c) pre in
+  snd (g_read_top (c_comps c) st k) = den (c_comps c) (alive st) (store st) k.
+Proof. exact never_stale_of_source. Qed.
+Print Assumptions C17_never_stale_of_source.
+
+(* ... and the three facts the cycle clause rests on hold of the translated Observable.__get__ / __set__:
+   a read by an evaluating function enters the read set; an inside assignment to a member of the read set is
+   refused; an accepted inside assignment does not empty the read set *)
+Theorem C17_cycle_rejected_of_source :
+  (forall prog j st o nm, ps_mem o nm (ps (fst (gen_obs_get prog (Some j) st o nm))) = true) /\
+  (forall prog st o nm v, ps_mem o nm (ps st) = true -> gen_obs_set prog true st o nm v = None) /\
+  (forall prog st o nm v st', gen_obs_set prog true st o nm v = Some st' -> ps st' = ps st).
+Proof. exact (conj read_registers_of_source (conj cycle_rejected_of_source clear_only_outside_of_source)). Qed.
+Print Assumptions C17_cycle_rejected_of_source.
+
 (* ---------------------------------------------------------------- non-vacuity *)
 Definition ex_chain : case :=
   {| c_init := [[1; 10]];
@@ -270,4 +323,12 @@ Example C17_example_kill :
   dirty st 2%nat = false /\ indepf prog 3 st 1 2 = true /\ indepf prog 3 st 1 0 = true /\ indepf prog 3 st 1 1 = false /\
   snd (read_top prog st' 2) = 10 /\ den prog (alive st') (store st') 2 = 10 /\
   snd (read_top prog st' 1) = 12 /\ den prog (alive st') (store st') 1 = 5.
+Proof. vm_compute. repeat split. Qed.
+
+(* the generated machine runs: same read as the model on the branch-flip history *)
+Example C17_example_of_source :
+  let pre := [Read 1; Assign 0 0 0; Read 1; Assign 0 1 20; Read 1; Assign 0 0 3] in
+  let st := final (c_comps ex_chain) [2%nat] (start ex_chain) pre in
+  gen_signal_skeleton_ok = true /\ snd (g_read_top (c_comps ex_chain) st 1) = 21 /\
+  gen_obs_set (c_comps ex_chain) true (fst (gen_obs_get (c_comps ex_chain) (Some 1%nat) st 0 0)) 0 0 5 = None.
 Proof. vm_compute. repeat split. Qed.
